@@ -141,6 +141,8 @@ macro_rules! create_window_processor {
                 if let Err(e) = $window_result_sender.send(window_res) {
                     error!("Failed to send cross-window raw content: {:?}", e);
                 }
+                #[cfg(kolibrie_verif)]
+                crate::verif_sched::note_send("results");
                 return;
             }
 
@@ -204,6 +206,8 @@ macro_rules! create_window_processor {
                 if let Err(e) = $window_result_sender.send(window_res) {
                     error!("Failed to send window result to buffer: {:?}", e);
                 }
+                #[cfg(kolibrie_verif)]
+                crate::verif_sched::note_send("results");
             } else {
                 ($r2s_consumer_func)(results, ts);
             }
@@ -225,11 +229,11 @@ macro_rules! register_window {
             crate::verif_sched::thread_begin(verif_token);
             loop {
                 #[cfg(kolibrie_verif)]
-                crate::verif_sched::before_recv();
+                crate::verif_sched::before_recv(&$window_iri);
                 match receiver.recv() {
                     Ok(content) => {
                         #[cfg(kolibrie_verif)]
-                        crate::verif_sched::after_recv();
+                        crate::verif_sched::after_recv(&$window_iri);
                         $processor(content);
                         #[cfg(kolibrie_verif)]
                         crate::verif_sched::point();
@@ -571,7 +575,11 @@ where
         let window_configs = self.window_configs.clone();
         let window_plans = self.rsp_query_plan.window_plans.clone();
 
+        #[cfg(kolibrie_verif)]
+        let verif_token = crate::verif_sched::pre_spawn();
         thread::spawn(move || {
+            #[cfg(kolibrie_verif)]
+            crate::verif_sched::thread_begin(verif_token);
             // Latest results per window (replace semantics)
             let mut last_materialized: HashMap<String, Vec<HashMap<String, String>>> =
                 HashMap::new();
@@ -593,6 +601,8 @@ where
                 // Receive next window result (or timeout/disconnect)
                 let maybe_result: Option<WindowResult> = if let Some(remaining) = timeout_remaining
                 {
+                    #[cfg(kolibrie_verif)]
+                    let remaining = crate::verif_sched::timeout_seam("results", remaining);
                     match receiver.recv_timeout(remaining) {
                         Ok(r) => Some(r),
                         Err(RecvTimeoutError::Timeout) => {
@@ -651,11 +661,17 @@ where
                         Err(RecvTimeoutError::Disconnected) => break,
                     }
                 } else {
+                    #[cfg(kolibrie_verif)]
+                    crate::verif_sched::before_recv("results");
                     match receiver.recv() {
                         Ok(r) => Some(r),
                         Err(_) => break,
                     }
                 };
+                #[cfg(kolibrie_verif)]
+                if maybe_result.is_some() {
+                    crate::verif_sched::after_recv("results");
+                }
 
                 if let Some(window_result) = maybe_result {
                     debug!(
@@ -683,6 +699,8 @@ where
 
                     // Drain any additional pending results
                     while let Ok(wr) = receiver.try_recv() {
+                        #[cfg(kolibrie_verif)]
+                        crate::verif_sched::after_recv("results");
                         max_ts = max_ts.max(wr.timestamp);
                         if cross_window_enabled {
                             cross_window_latest_contents
@@ -780,7 +798,11 @@ where
             }
 
             debug!("Coordinator: shutdown complete");
+            #[cfg(kolibrie_verif)]
+            crate::verif_sched::thread_end();
         });
+        #[cfg(kolibrie_verif)]
+        crate::verif_sched::point();
     }
 
     /// Add data to appropriate window based on stream IRI
